@@ -281,10 +281,32 @@ def _equal(I, l: Any, r: Any, st, lexpr, rexpr) -> list:
         return _fork(st)
     if is_concrete(l) and is_concrete(r):
         return [(l == r and type(l) is type(r) or (l == r and not isinstance(l, bool) and not isinstance(r, bool)), st)]
+    if isinstance(l, Term) and isinstance(r, Term):
+        if l == r:
+            return [(True, st)]  # the same uninterpreted term
+        if l.head.startswith("marker:") or r.head.startswith("marker:"):
+            return [(False, st)]  # scenario markers denote pairwise different values
+        st.note(f"equality of different library terms {l.head} / {r.head}")
+        return _fork(st)
     if isinstance(l, Ref) and isinstance(r, Ref):
         if l == r:
             return [(True, st)]
         hl, hr = st.obj(l), st.obj(r)
+        if hl.kind == "obj" and hr.kind == "obj" and hl.cls in I.model.classes and not getattr(I, "_in_eq", False):
+            m = I.model.find_method(I.model.classes[hl.cls], "__eq__")
+            if m is not None:
+                I._in_eq = True
+                try:
+                    res = I.call_func(m.qualname, [l, r], {}, st)
+                finally:
+                    I._in_eq = False
+                out = []
+                for v, s2 in res:
+                    if isinstance(v, bool):
+                        out.append((v, s2))
+                    else:
+                        out.extend(I.truth_fork(v, s2))
+                return out
         if hl.kind == hr.kind and hl.kind in ("list", "set") and all(is_concrete(x) for x in hl.items + hr.items):
             if hl.kind == "set":
                 return [(set(hl.items) == set(hr.items), st)]
